@@ -1076,7 +1076,7 @@ fn minimise(mut rp: OptReplay) -> OptReplay {
 
 pub fn run_c06(args: &Args) -> i32 {
     let n = args.cases.unwrap_or(match args.tier {
-        Tier::Quick => 2000,
+        Tier::Quick => 12000,
         Tier::Thorough => 40000,
     });
     run_prop(args, "C06", n, "cases = (U, O = optimize_context(U)) twins: U is the unoptimised compiler output of a seeded DSL program (two thirds) or a generated inlined plaintext graph decorated with Random/PRF nodes, Send-annotated NOPs, duplicated sub-expressions, foldable constants, tuple plumbing and dangling nodes (one third). Both are executed by the three-party simulator under the same inputs, junk, schedule policy and tapes addressed by ORIGINAL node identity through the returned mapping. Oracles: every mapped node carries the same value at every party; outputs equal; same (sender, receiver, payload) set on the output's dependency cone; input nodes identical in number/order/type/name; recorded types equal the types re-derived after a serde reload. distinct_nontrivial = distinct (program, configuration, event-order) tuples with >= 1 Send (compiled) or decorated (plain)")
@@ -1084,7 +1084,7 @@ pub fn run_c06(args: &Args) -> i32 {
 
 pub fn run_c04(args: &Args) -> i32 {
     let n = args.cases.unwrap_or(match args.tier {
-        Tier::Quick => 1000,
+        Tier::Quick => 2500,
         Tier::Thorough => 30000,
     });
     run_prop(args, "C04", n, "cases = compiler pipeline outputs (all three inline modes; programs biased to protocols that draw several masks from one key: oblivious transfer via mixed multiply, A2B/B2A, sort/permutation, repeatedly inlined Call/Iterate bodies) and generated inlined graphs with Random/PRF/annotated nodes given to the optimiser. Static: PRF/PermutationFromPRF counters of the final main graph pairwise distinct; the optimiser's mapping is injective on randomising/PRF nodes, keeps their operation, and every such node of the output has exactly one preimage; PRF keys descend from Random/Input nodes, never constants. Run-time (three-party simulation): no two distinct nodes query the same (key bytes, counter) at any party; a second tape changes every Random draw")
